@@ -1,7 +1,7 @@
 (* PropC16.v — property theorems for C16 (offline providers honour the provider contract).
    All statements are about ProvModel.v, the model tied to MockProvider by harness/checks/c16.py. *)
 From Coq Require Import NArith List Bool.
-From CS Require Import Sx Str ProvModel ProvProofs.
+From CS Require Import Sx Str ProvModel ProvProofs ProvBounded.
 Import ListNotations.
 
 (* ---- object ids: for EVERY call sequence and every flavour, heap cell r (one MockFSObject) has
@@ -153,6 +153,14 @@ Theorem C16_events_complete_delete : forall s k s', delete s k = (s', Ok tt) ->
 Proof. exact delete_event. Qed.
 Print Assumptions C16_events_complete_delete.
 
+Theorem C16_events_complete_rename : forall s k p s' k', rename s k p = (s', Ok k') ->
+  (k' = k /\ (p_log s' = p_log s \/ exists e, p_log s' = p_log s ++ [e] /\ e_kind e = EvDelete /\ e_exists e = false)) \/
+  exists l e r o', p_log s' = p_log s ++ l ++ [e] /\ length l <= 1 /\
+                   e_kind e = EvRename /\ e_oid e = k' /\ e_path e = p /\ e_exists e = o_exists o' /\
+                   nth_error (p_heap s') r = Some o' /\ o_oid o' = k' /\ o_path o' = p.
+Proof. exact rename_event. Qed.
+Print Assumptions C16_events_complete_rename.
+
 (* ---- connect: credentials of another identity are refused, the provider ends up disconnected and
    stays bound to its identity *)
 Theorem C16_connect_identity : forall ident c creds i, cn_id c = Some i -> ident creds <> i ->
@@ -195,6 +203,25 @@ Proof.
   vm_compute in H. discriminate.
 Qed.
 Print Assumptions C16_prov_wf_clean_refuted.
+
+(* what is proved about wf: for the three flavours other than (oid_is_path, case-insensitive), EVERY clean
+   sequence of at most 3 calls over the alphabet ProvBounded.balpha (create/mkdir/rename/delete/upload on
+   the paths /a /A /b /a/b and the first three oids) ends in a well-formed state.  The bound is part of the
+   statement; beyond it wf is only monitored (the check evaluates wfb after every call of every explored
+   clean sequence).  Missing: an inductive proof that clean calls preserve wf (folder renames move dead
+   dictionary entries too, which makes the invariant large). *)
+Theorem C16_prov_wf_partial : forall c ops, In c bcfgs -> In ops (seqs (balpha c) 3) ->
+  clean_run (init c) ops = true -> wfb (fst (run_ops (init c) ops)) = true.
+Proof. exact wf_bounded. Qed.
+Print Assumptions C16_prov_wf_partial.
+
+Example wf_partial_nonvacuous :
+  In [OMkdir [bn_a]; OCreate [bn_a; bn_b] 1%N; ORename (KId 1%N) [bn_b]] (seqs (balpha (bcfg false true)) 3) /\
+  clean_run (init (bcfg false true)) [OMkdir [bn_a]; OCreate [bn_a; bn_b] 1%N; ORename (KId 1%N) [bn_b]] = true.
+Proof.
+  split; [|vm_compute; reflexivity].
+  repeat (apply in_seqs_cons; [vm_compute; tauto|]). apply in_seqs_nil.
+Qed.
 
 Example wf_init_all_flavours :
   forallb (fun c => wfb (init c)) [cfg_of false true; cfg_of false false; cfg_of true true; cfg_of true false] = true.
